@@ -10,6 +10,7 @@ import CookModel.Driver.Serde
 import CookModel.Driver.Builder
 import CookModel.Driver.Tie
 import CookModel.Driver.Display
+import CookModel.Driver.Report
 /- Registry of line-protocol handlers. One line per area. -/
 namespace Cook.Driver
 def handlers : List (List String → Option String) := [
@@ -24,6 +25,7 @@ def handlers : List (List String → Option String) := [
   handleSerde,
   handleBuilder,
   handleTie,
-  handleDisplay
+  handleDisplay,
+  handleReport
 ]
 end Cook.Driver
